@@ -153,30 +153,32 @@ def execute(scenario):
         table = scenario["table"]
         with simfs.Seams(fs):
             def write():
+                given = [list(row) for row in table]
                 writer = rowio.XlsxRowWriter("out.xlsx")
                 if scenario.get("batches"):
                     position = 0
                     for size, how in scenario["batches"]:
-                        batch = [list(row) for row in table[position:position + size]]
+                        batch = given[position:position + size]
                         position += size
                         if how == "row" and len(batch) == 1:
                             writer.write_row(batch[0])
                         elif batch:
                             writer.write_rows(batch)
-                    for row in table[position:]:
-                        writer.write_row(list(row))
+                    for row in given[position:]:
+                        writer.write_row(row)
                 elif scenario.get("use_write_rows"):
-                    writer.write_rows([list(row) for row in table])
+                    writer.write_rows(given)
                 else:
-                    for row in table:
-                        writer.write_row(list(row))
+                    for row in given:
+                        writer.write_row(row)
                 writer.close()
+                lib.check_rows_untouched(given, table)
 
             status, value = lib.call(write)
             if status == "exc":
                 raise core.Violation("xlsx-writer-failed", ["class=" + type(value).__name__] + (
                     ["write_rows"] if scenario.get("use_write_rows") else []), repr(value))
-            status, value = lib.call(lambda: [list(row) for row in rowio.excel_rows("out.xlsx")])
+            status, value = lib.call(lambda: lib.collect_rows(rowio.excel_rows("out.xlsx")))
         history.add("client", "writer-round-trip", {"status": status, "value": value if status == "ok" else lib.error_summary(value)})
         # xlsxwriter stores empty strings as (shared) string cells, so they stay cells: only the padding
         # of every row to the sheet's width applies
@@ -241,7 +243,7 @@ def execute(scenario):
             result.probe("via:reader")
         else:
             via = "direct"
-            status, value = lib.call(lambda: [list(row) for row in rowio.excel_rows("book.xlsx", sheet)])
+            status, value = lib.call(lambda: lib.collect_rows(rowio.excel_rows("book.xlsx", sheet)))
             result.probe("via:direct")
     history.add("client", "excel_rows", {"sheet": sheet, "via": via, "status": status,
                                          "value": value if status == "ok" else lib.error_summary(value)})
